@@ -59,6 +59,9 @@ type Script struct {
 	ReadBufs  []int   `json:"readBufs,omitempty"`  // buffer sizes of successive Read calls (cycled; default 32768)
 	ReadGapUs int64   `json:"readGapUs,omitempty"` // think time after each Read (>=1)
 	StopRead  int64   `json:"stopRead,omitempty"`  // >0: stop reading after this many bytes (slow/stuck reader)
+	// ReadDelayUs: the reader makes its first Read only after this long (a slow consumer: the
+	// peer's writes pile up in every queue on the way, then everything must still arrive)
+	ReadDelayUs int64 `json:"readDelayUs,omitempty"`
 }
 
 type Session struct {
@@ -353,14 +356,17 @@ type Probe struct {
 	IP        string `json:"ip"`
 	AtUs      int64  `json:"atUs"`               // earliest start (relative to run start)
 	AfterEnd  bool   `json:"afterEnd,omitempty"` // wait until the source session has ended
-	Source    int    `json:"source"`             // genuine client whose traffic is copied
-	Len       int    `json:"len,omitempty"`
-	Arg       int    `json:"arg,omitempty"` // prefix length / bit index / segment count
-	Dribble   bool   `json:"dribble,omitempty"`
-	HoldUs    int64  `json:"holdUs,omitempty"`
-	Seed      uint64 `json:"seed,omitempty"`
-	User      int    `json:"user,omitempty"` // hostile: index of the registered user the attacker controls
-	Count     int    `json:"count,omitempty"`
+	// AfterEndDelayUs: wait this much longer after the source sessions ended (the server forgets a
+	// closed session at its 5 s housekeeping tick; only then can a copy of its first segment open a session)
+	AfterEndDelayUs int64  `json:"afterEndDelayUs,omitempty"`
+	Source          int    `json:"source"` // genuine client whose traffic is copied
+	Len             int    `json:"len,omitempty"`
+	Arg             int    `json:"arg,omitempty"` // prefix length / bit index / segment count
+	Dribble         bool   `json:"dribble,omitempty"`
+	HoldUs          int64  `json:"holdUs,omitempty"`
+	Seed            uint64 `json:"seed,omitempty"`
+	User            int    `json:"user,omitempty"` // hostile: index of the registered user the attacker controls
+	Count           int    `json:"count,omitempty"`
 	// Intercepted (prefix/trunc): the attacker sits on the path. The genuine first
 	// segment it copies never reaches the server (the spec's fault plan swallows it), so the
 	// server's replay detection has not seen it; only proper prefixes are sent.
